@@ -7,7 +7,8 @@ Model: coq/Model/Transpile.v (`transpile_ops`) = the statements of transpile in 
 (Gen/Devices.v), over the C07 routing model (Model/Route.v) and the C03 decomposition model (Model/Resolve.v).
 
 An input is {"processor": class name, "N": processor size, "M": circuit width (optional, default N),
-             "gates": [[name, targets, controls, arg], ...], "measure": bool (optional)}
+             "gates": [[name, targets, controls, arg], ...], "measure": bool (optional),
+             "native": [names] (optional: processor.native_gates is REASSIGNED to this list after construction, before transpile)}
 """
 import glob
 import itertools
@@ -58,6 +59,15 @@ ONE = [k for k, v in KINDS.items() if v[0] + v[1] == 1]
 TWO = [k for k, v in KINDS.items() if v[0] + v[1] == 2]
 THREE = [k for k, v in KINDS.items() if v[0] + v[1] == 3]
 
+# other legal native sets a processor may be given AFTER construction (virtual-Z hardware has no RX or no RY pulse; the two-qubit
+# natives of the device are kept): resolve_gates must rewrite the missing rotation through the two present ones
+NATIVE_SETS = {
+    "SCQubits": [["RY", "RZ", "CNOT"], ["RX", "RZ", "CNOT"], ["RZ", "RY", "CNOT", "RZX"], ["RX", "RY", "RZ", "CNOT"]],
+    "LinearSpinChain": [["ISWAP", "SQRTISWAP", "RY", "RZ"], ["SQRTISWAP", "ISWAP", "RX", "RY"], ["ISWAP", "RZ", "RY"]],
+    "CircularSpinChain": [["ISWAP", "SQRTISWAP", "RY", "RZ"], ["SQRTISWAP", "ISWAP", "RX", "RY"], ["ISWAP", "RY", "RZ"]],
+    "DispersiveCavityQED": [["SQRTISWAP", "ISWAP", "RY", "RZ"], ["SQRTISWAP", "ISWAP", "RY", "RX"], ["ISWAP", "RY", "RZ", "RX"]],
+}
+
 _gen = {}
 _proc_cache = {}
 
@@ -97,7 +107,9 @@ def run_impl(inp):
     with warnings.catch_warnings():
         warnings.simplefilter("ignore")
         try:
-            proc = _processor(inp["processor"], inp["N"])
+            proc = _processor(inp["processor"], inp["N"], fresh="native" in inp)
+            if "native" in inp:
+                proc.native_gates = list(inp["native"])
             qc = _circuit(inp)
         except Exception as e:
             return ("unbuildable", repr(e)[:120], None)
@@ -116,6 +128,8 @@ def run_load(inp):
         warnings.simplefilter("ignore")
         try:
             proc = _processor(inp["processor"], inp["N"], fresh=True)
+            if "native" in inp:
+                proc.native_gates = list(inp["native"])
             qc = _circuit(inp)
         except Exception as e:
             return "unbuildable"
@@ -156,6 +170,25 @@ def resolvable_on(proc, name, native):
     if name in ("SQRTSWAP", "SQRTISWAP"):
         return False
     return name in KINDS
+
+
+def _unitary_big(gates, N):
+    """the matrix of Q.circuit_unitary, gate by gate on the tensor of the matrix (no 2^N x 2^N factor per gate): used from 6
+    qubits on; same gate matrices (Q.np_gate), same qubit order (qubit 0 = most significant)"""
+    import cmath
+    U = np.eye(2 ** N, dtype=complex).reshape([2] * N + [2 ** N])
+    for name, t, c, a in gates:
+        args = [x.real for x in a]
+        args = args if len(args) != 1 else args[0]
+        if name == "GLOBALPHASE":
+            U = cmath.exp(1j * (args[0] if isinstance(args, (list, tuple)) else args)) * U
+            continue
+        qs = list(c) + list(t)
+        k = len(qs)
+        G = np.asarray(Q.np_gate(name, args)).reshape([2] * (2 * k))
+        U = np.tensordot(G, U, axes=(list(range(k, 2 * k)), qs))
+        U = np.moveaxis(U, list(range(k)), qs)
+    return U.reshape(2 ** N, 2 ** N)
 
 
 def oracle(inp, impl):
@@ -207,8 +240,9 @@ def oracle(inp, impl):
     if all(C3._known_for_unitary(n) for n in names):
         try:
             src = [[g[0], g[1], g[2], C3._canon_arg(C3._arg(g[3]))] for g in inp["gates"]]
-            U0 = C3._unitary(src, M)
-            U1 = C3._unitary(out, M)
+            uni = C3._unitary if M < 6 else _unitary_big
+            U0 = uni(src, M)
+            U1 = uni(out, M)
             if not np.allclose(U0, U1, atol=1e-9):
                 fails.append(("transpiled circuit has a different unitary", "max |dU| = %.3g" % float(np.max(np.abs(U0 - U1))),
                               "equal unitaries, global phase included"))
@@ -236,11 +270,18 @@ def oracle_load(inp, impl, load):
 HEADER = C3.HEADER.replace("Model.Resolve.", "Model.Resolve Model.TranspileTypes Gen.Devices Model.Transpile.") + r"""
 Definition run13 (p : string) (Ndev M : nat) (ops : list op) :=
   match device_of p with Some d => dump (transpile_ops d Ndev M ops) | None => None end.
+(* the same device after `processor.native_gates = nat` *)
+Definition run13n (p : string) (nl : list string) (Ndev M : nat) (ops : list op) :=
+  match device_of p with
+  | Some d => dump (transpile_ops (mkDev (dname d) (Some nl) (dtopo d) (dnarrow d) (dunrouted d)) Ndev M ops)
+  | None => None end.
 """
 
 
 def _safe(inp):
     ok = lambda s: isinstance(s, str) and all(ch.isalnum() or ch == "_" for ch in s)
+    if "native" in inp and not (isinstance(inp["native"], list) and all(ok(x) for x in inp["native"])):
+        return False
     return (inp.get("processor") in PROCESSORS and 0 < inp["N"] <= 12 and 0 < _width(inp) <= 12
             and all(ok(g[0]) and all(isinstance(x, int) and 0 <= x < 64 for x in list(g[1]) + list(g[2])) for g in inp["gates"]))
 
@@ -259,6 +300,10 @@ def run_model(inputs):
             ops = [C3._cgate(i, g) for i, g in enumerate(inp["gates"])]
             if inp.get("measure"):
                 ops.append("OpMeasure")
+            if "native" in inp:
+                nat = "[" + "; ".join('"%s"' % x for x in inp["native"]) + "]"
+                body.append(f'Eval vm_compute in run13n "{inp["processor"]}" {nat} {int(inp["N"])}%nat {_width(inp)}%nat [{"; ".join(ops)}].')
+                continue
             body.append(f'Eval vm_compute in run13 "{inp["processor"]}" {int(inp["N"])}%nat {_width(inp)}%nat [{"; ".join(ops)}].')
         files.append((f"{tag}_{k // 300}", "\n".join(body) + "\n"))
     try:
@@ -390,6 +435,43 @@ def gen_inputs(ctx):
                 out.append(("rzx", dict(processor=proc, N=N, gates=pre + [["RZX", list(p), [], rng.choice(C3.ANGLES)]] + post)))
         out.append(("rzx", dict(processor=proc, N=5, M=3, gates=[["RZX", [0, 2], [], 0.5]])))
         out.append(("rzx", dict(processor=proc, N=5, M=3, gates=[["RZX", [2, 1], [], 0.5]])))
+    # 4c. larger rings: CNOT / CSIGN whose shorter way leads through the closing edge (index distance > N//2; wrap-around paths of
+    #     2, 3 and more edges exist only from 7 qubits on), both directions; exchange-type gates on a sample of these pairs
+    for N in (7, 8):
+        back = [(a, b) for a in range(N) for b in range(N) if abs(a - b) > N // 2]
+        for p in back:
+            for name in ("CNOT", "CSIGN"):
+                t, c = _place(name, N, p)
+                out.append(("bigring", dict(processor="CircularSpinChain", N=N, gates=[C3.mk_gate(name, t, c, rng)])))
+        for p in rng.sample(back, 3):
+            t, c = _place("ISWAP", N, p)
+            out.append(("bigring", dict(processor="CircularSpinChain", N=N, gates=[C3.mk_gate("ISWAP", t, c, rng)])))
+        p = rng.choice(back)
+        out.append(("bigring", dict(processor="LinearSpinChain", N=N, gates=[C3.mk_gate("CNOT", [p[0]], [p[1]], rng)])))
+    # 4d. native_gates reassigned after construction to another legal set (no RX / no RY / other order): every one-qubit kind,
+    #     the two-qubit kinds that are resolved through one-qubit rotations, short sequences
+    for proc in PROCESSORS:
+        for nat in NATIVE_SETS[proc]:
+            for name in ONE + ["GLOBALPHASE"]:
+                N = rng.choice([1, 2, 3])
+                t, c = ([], []) if name == "GLOBALPHASE" else ([rng.randrange(N)], [])
+                out.append(("native", dict(processor=proc, N=N, native=nat, gates=[C3.mk_gate(name, t, c, rng)])))
+            for name in ("CNOT", "CSIGN", "ISWAP", "SWAP", "SQRTISWAP", "CPHASE", "TOFFOLI"):
+                k = KINDS.get(name)
+                if k is None:
+                    continue
+                N = 3
+                t, c = _place(name, N, rng.sample(range(N), k[0] + k[1]))
+                out.append(("native", dict(processor=proc, N=N, native=nat, gates=[C3.mk_gate(name, t, c, rng)])))
+            for _ in range(3):
+                N = rng.choice([2, 3, 4])
+                gs = []
+                for _ in range(rng.randint(2, 4)):
+                    name = rng.choice(ONE * 2 + ["CNOT", "CSIGN", "ISWAP"])
+                    k = KINDS[name]
+                    t, c = _place(name, N, rng.sample(range(N), k[0] + k[1]))
+                    gs.append(C3.mk_gate(name, t, c, rng))
+                out.append(("native", dict(processor=proc, N=N, native=nat, gates=gs)))
     # 5. malformed gates (Ok/Rejected and output equality only)
     mal = [
         [["TOFFOLI", [2], [0], None]], [["TOFFOLI", [2], [], None]], [["FREDKIN", [1], [0], None]], [["SWAP", [1], [], None]],
@@ -416,9 +498,13 @@ def gen_inputs(ctx):
 #     replace  the same object; every differing list entry is replaced by a new Gate; same number of gates
 #     rebuild  the same object; qc.gates[:] = new gates (any length)
 #   load = call processor.load_circuit(qc) after the transpile of this step (it transpiles again internally)
+#   native = [names]: processor.native_gates is reassigned to this list before the transpile of this step (and stays)
 # Every transpile is compared with the HISTORY-FREE model and judged by the oracle against the circuit AS IT IS at that call.
 def _step_inp(inp, k):
     d = dict(processor=inp["processor"], N=inp["N"], gates=inp["history"][k]["gates"])
+    for st in inp["history"][:k + 1]:
+        if "native" in st:
+            d["native"] = st["native"]
     if "M" in inp:
         d["M"] = inp["M"]
     return d
@@ -468,6 +554,9 @@ def run_history(inp):
                 qc, prev = None, None
                 continue
             prev = step["gates"]
+            if "native" in step:
+                proc.native_gates = list(step["native"])
+                native = list(proc.native_gates)
             try:
                 out = proc.transpile(qc)
                 res.append(("ok", C3._canon(out.gates), native))
@@ -581,6 +670,8 @@ def gen_histories(ctx):
                 how = rng.choice(["attr", "attr", "replace", "rebuild"])
             hs.append(dict(gates=nxt, how=how, load=rng.random() < 0.15))
             cur = nxt
+        if rng.random() < 0.3:      # the native set is changed between two calls (and stays changed)
+            hs[rng.randrange(len(hs))]["native"] = rng.choice(NATIVE_SETS[proc])
         h = dict(processor=proc, N=N, history=hs)
         if M != N:
             h["M"] = M
@@ -608,6 +699,8 @@ def check_histories(corr, hists):
     for inp, (h, k), impl, val in zip(flat, where, impls, vals):
         corr.tally("history-call")
         corr.tally("history:" + h["history"][k]["how"])
+        if "native" in inp:
+            corr.tally("history:native-reassigned")
         corr.count(_key(dict(h=h, k=k)), nontrivial=(k > 0), sample=h if k == 1 and len(corr.samples) < 5 else None)
         hin = dict(h, step=k)
         try:
@@ -651,7 +744,7 @@ def _show(r):
 def correspond(ctx):
     corr = Corr(rule="four processors x 1-5 qubits: every two-qubit kind on every ordered pair (every distance, both directions), "
                      "three-qubit kinds on ordered triples, one-qubit kinds, random mixed sequences, refused circuits (no rule, SQRTSWAP, "
-                     "measurement), circuits narrower/wider than the processor, RZX, malformed gates; histories of 3-5 transpile calls on ONE "
+                     "measurement), circuits narrower/wider than the processor, RZX, malformed gates, CNOT/CSIGN/ISWAP through the closing edge of 7-8 qubit rings, native_gates reassigned after construction to other legal sets (no RX / no RY); histories of 3-5 transpile calls on ONE "
                      "processor with the circuit object edited in place between the calls (angle, qubits, gate replaced, gates added/removed, "
                      "untouched, fresh object), each call against the history-free model; non-trivial = the circuit holds a gate on two or "
                      "more qubits or is refused / a later call of a history")
